@@ -228,8 +228,8 @@ def check(rep, args):
     configs = ["ws"] if rep.tier == "quick" else ["ws", "std"]
     rep.configs = configs
     for cfg in configs:
-        check_config(rep, facts.program(cfg))
-        index_order_rule(rep, facts.program(cfg))
+        rep.guard(check_config, rep, facts.program(cfg))
+        rep.guard(index_order_rule, rep, facts.program(cfg))
     cov = {
         "explanation": "exhaustive panic-edge enumeration over the call graph below parse_obj/read_obj with schema-based discharge, "
                        "plus the Mesh::new callee contract (attribution, precondition on every path, running-maximum invariant)",
